@@ -130,6 +130,11 @@ func (u *Unit) Run() {
 		u.addOblNamed(st, "structure", "structure/defers-first", "the body starts with `defer "+want+"`: a panic in it is recovered", fn.Pos(), BoolLit(ok))
 	}
 	exit, results := u.execBody(fr, st)
+	for _, pl := range u.pendingLock {
+		if u.lockedInvs[pl.inv] {
+			u.obls = append(u.obls, pl.obl)
+		}
+	}
 	penv := u.envFor(nil, exit, u.entry, results)
 	penv.fr = fr
 	penv.paramsAtEntry = true
